@@ -317,7 +317,7 @@ def emitter_config(ctx):
 
 class TickProcess(Process):
     """Adds 1 to the root variable clock/tick with every update."""
-    defaults = {'run_id': 0, 'time_step': 1.0}
+    defaults = {'run_id': 0, 'time_step': 1.0, 'empty': False}
 
     def ports_schema(self):
         rid = self.parameters['run_id']
@@ -329,6 +329,8 @@ class TickProcess(Process):
         ctx = CTX.get(self.parameters['run_id'])
         if ctx is not None:
             ctx.rec('invoke', self.name, ctx.now(), timestep, 1, None, None)
+        if self.parameters['empty']:
+            return {}           # a batch may consist of empty updates only
         return {'clock': {'tick': 1}}
 
 
